@@ -346,6 +346,7 @@ func (c *Ctx) ord4() {
 
 	// --- handlers keep the loop invariant: pendingAck empty when the read loop continues ---
 	inv := c.acc("ORD-4", rs, "loop-continues⇒pendingAck-empty(handler-summaries)")
+	retry := c.acc("ORD-4", rs, "packet-kept-for-retry-only-after-durable-record-change")
 	for name, h := range map[string]*ssa.Function{"typePUBLISH": onPub, "typePUBREC": onRec, "typePUBREL": onRel} {
 		if h == nil {
 			continue
@@ -365,9 +366,27 @@ func (c *Ctx) ord4() {
 			} else {
 				inv.pass()
 			}
+			// an error return may keep the packet for a retry by the next
+			// ReadSlices only when its record change was made durable
+			if name != "typePUBLISH" && re != triNil && nonEmpty {
+				durable := false
+				for i := range p.Events {
+					if op := persistenceOp(&p.Events[i]); op == "Save" || op == "Delete" {
+						if n, k := nilResult(p, i, last); n && k {
+							durable = true
+						}
+					}
+				}
+				if durable {
+					retry.pass()
+				} else {
+					retry.fail(p, last, "%s fails before its Persistence change succeeded, yet leaves its packet in pendingAck: the next ReadSlices transmits it although nothing was recorded (a PUBREL goes out while the store still says PUBLISH)", name)
+				}
+			}
 		}
 	}
 	inv.done(3, "every handler return that lets the loop continue leaves pendingAck truncated or untouched")
+	retry.done(2, "PUBREL/PUBCOMP stay queued for a retry only behind a nil Save/Delete")
 
 	// --- readSlices flush ---
 	flush := c.acc("ORD-4", rs, "peekPacket-only-with-pendingAck-flushed")
